@@ -177,6 +177,11 @@ def poisons():
             lambda x: not (x.has("rename") or x.has("missing") or x.skipped()))
     ordered("field", "f-default-sandwich", lambda x: [("default", None), ("rename", "sw6"), ("default", None)], pick_field,
             lambda x: not (x.has("rename") or x.has("default") or x.skipped()))
+    dflt = ("default", ("::std::default::Default::default()", {"i": "0"}))
+    ordered("field", "f-default-valued-then-bare", lambda x: [dflt, ("default", None)], pick_field, lambda x: not (x.has("default") or x.skipped()))
+    ordered("field", "f-default-bare-then-valued", lambda x: [("default", None), dflt], pick_field, lambda x: not (x.has("default") or x.skipped()))
+    ordered("field", "f-default-valued-twice", lambda x: [dflt, dflt], pick_field, lambda x: not (x.has("default") or x.skipped()))
+    ordered("field", "f-default-valued-bare-skipped", lambda x: [dflt, ("default", None)], pick_field, lambda x: x.skipped() and not x.has("default"))
     ordered("field", "f-map-sandwich", lambda x: [("map", 955, x.ty), ("error", 0), ("map", 956, x.ty)], pick_field, lambda x: not (x.has("map") or x.has("error")))
     ordered("field", "f-from-sandwich", lambda x: [("from", x.ty, 957, False), ("rename", "sw7"), ("from", x.ty, 958, False)], pick_field,
             lambda x: not (x.has("rename") or x.has("from") or x.has("try_from") or x.skipped()))
